@@ -210,7 +210,7 @@ fn gen_bcase(rng: &mut Rng) -> BCase {
     BCase { max, bps, period, respecting, ops }
 }
 
-const FAR: u128 = 1_000_000_000_000_000_000; // 1e9 s in ns: neither waited for nor modelled
+const FAR: u128 = 60_000_000_000_000_000; // 6e7 s in ns (the timer's longest sleep is ~6.8e7 s): neither waited for nor modelled
 
 async fn run_bcase(rep: &Report, c: &BCase) {
     rep.eval();
@@ -268,6 +268,11 @@ async fn run_bcase(rep: &Report, c: &BCase) {
                     break;
                 }
                 tokio::time::sleep_until(d).await;
+                if Instant::now() < d {
+                    // the timer caps very long sleeps: this caller did not really wait
+                    rep.count("L1.deadline_too_far_to_wait", 1);
+                    break;
+                }
             }
         }
         let now = Instant::now();
